@@ -171,6 +171,8 @@ fn binary(op: LOp, a: &Expr, b: &Expr) -> Option<Expr> {
 
 pub fn run(tier: Tier, seed: u64) -> i32 {
     let run = Run::new(ID, "exploration", tier, seed);
+    // C04 is about acceptance, panics and static types; what an accepted filter evaluates to is C01-C03's business
+    run.types_only.store(true, std::sync::atomic::Ordering::Relaxed);
     run.assume("typing rules as listed in DESIGN.md §5 C04 (reference typer harness/src/sem.rs); bare boolean maps inside call arguments are not generated");
     let accepted = AtomicU64::new(0);
     let rejected = AtomicU64::new(0);
